@@ -264,6 +264,83 @@ theorem asis_copy_shares {h : Heap} {g ds dm : Nat} {c : Cell} (hc : h[g]? = som
     simp
   exact ⟨r1, r2, shared_not_sep r1 r2⟩
 
+/-! ## caches (`_ball_tree`, `_kd_tree`, cached GeoDataFrame / collections, …)
+
+  `copy_disjoint` is about EVERY original grid cell — whatever helper objects its cache fields refer
+  to, including objects that refer back to the grid — so the copy never reaches a cache of the
+  original.  The theorems below make the cache part explicit. -/
+
+/-- the (repaired) copy starts with EMPTY caches: its cell has the dataset and the dims dictionary
+    and nothing else -/
+theorem copy_caches_empty {h : Heap} {g ds dm : Nat} {c : Cell} (hc : h[g]? = some c)
+    (hds : field h g kDs = some ds) (hdm : field h g kDims = some dm) (k : Nat)
+    (h1 : k ≠ kDs) (h2 : k ≠ kDims) : field (copyGrid h g).1 (copyGrid h g).2 k = none := by
+  simp only [copyGrid, hc, hds, hdm]
+  unfold field
+  rw [List.getElem?_append_right (by rw [length_dup]; omega)]
+  simp [length_dup, look, Ne.symm h1, Ne.symm h2]
+
+/-- no cache of the original (nor anything else of it) is reachable from the copy, and vice versa -/
+theorem copy_reaches_no_cache {h : Heap} {g ds dm : Nat} {c : Cell} (wf : WF h) (hc : h[g]? = some c)
+    (hds : field h g kDs = some ds) (hdm : field h g kDims = some dm) {k t : Nat}
+    (_hk : field h g k = some t) {x : Nat} (hx : Reach (copyGrid h g).1 g x) :
+    ¬ Reach (copyGrid h g).1 (copyGrid h g).2 x :=
+  fun hy => (copy_disjoint wf hc hds hdm).1.2.2.2 x hx hy
+
+/-- **grid_copy_independent_caches**: after `c = g.copy()`, ANY history of dataset mutators AND
+    cache operations (filling a tree / GeoDataFrame cache with an object that refers back to its
+    grid, switching a tree in place, dropping a cache) on one side leaves everything the other side
+    reaches — including its caches — untouched. -/
+theorem grid_copy_independent_caches {h : Heap} {g ds dm : Nat} {c : Cell} (wf : WF h)
+    (hc : h[g]? = some c) (hds : field h g kDs = some ds) (hdm : field h g kDims = some dm)
+    (ops : List GridOp) :
+    Frame (copyGrid h g).1 (runActs (copyGrid h g).1 (copyGrid h g).2 (ops.flatMap GridOp.acts)) g ∧
+    Frame (copyGrid h g).1 (runActs (copyGrid h g).1 g (ops.flatMap GridOp.acts)) (copyGrid h g).2 :=
+  copy_independent (copy_disjoint wf hc hds hdm).1 _
+
+/-- **regression witness** (`grid._ball_tree = self._ball_tree` in `copy()`): a handed-over cache is
+    reached by both grids, and when the helper object refers back to its grid (as `BallTree` does)
+    the copy reaches the ORIGINAL GRID itself. -/
+theorem handover_copy_shares {h : Heap} {g ds dm k t : Nat} {c : Cell} {keys : List Nat}
+    (hc : h[g]? = some c) (hds : field h g kDs = some ds) (hdm : field h g kDims = some dm)
+    (hk : field h g k = some t) (hin : k ∈ keys) (h1 : k ≠ kDs) (h2 : k ≠ kDims) :
+    Reach (copyGridHandOver h g keys).1 g t ∧
+    Reach (copyGridHandOver h g keys).1 (copyGridHandOver h g keys).2 t ∧
+    ¬ Sep (copyGridHandOver h g keys).1 g (copyGridHandOver h g keys).2 ∧
+    (field h t kSrc = some g →
+      Reach (copyGridHandOver h g keys).1 (copyGridHandOver h g keys).2 g) := by
+  have hg : g < h.length := (List.getElem?_eq_some_iff.mp hc).1
+  have hkt : (k, t) ∈ c.refs := by
+    unfold field at hk; rw [hc] at hk; exact look_mem hk
+  simp only [copyGridHandOver, hc, hds, hdm]
+  generalize hcell : (⟨c.data, [(kDs, ds + h.length), (kDims, dm + h.length)] ++
+    c.refs.filter (fun p => keys.contains p.1 && p.1 != kDs && p.1 != kDims)⟩ : Cell) = cell
+  have low : ∀ a, a < h.length → (dup h ++ [cell])[a]? = h[a]? := fun a ha =>
+    lowSame_trans dup_low (lowSame_append _ _) (by rw [length_dup]; omega) a ha
+  have r1 : Reach (dup h ++ [cell]) g t := by
+    refine Reach.step Reach.refl ?_
+    rw [succs_congr (low g hg)]
+    exact field_succs hk
+  have r2 : Reach (dup h ++ [cell]) (2 * h.length) t := by
+    refine Reach.step Reach.refl ?_
+    unfold succs
+    rw [List.getElem?_append_right (by rw [length_dup]; omega)]
+    simp only [length_dup, Nat.sub_self, List.getElem?_cons_zero]
+    subst hcell
+    refine List.mem_map.mpr ⟨(k, t), ?_, rfl⟩
+    refine List.mem_append_right _ (List.mem_filter.mpr ⟨hkt, ?_⟩)
+    simp [hin, h1, h2]
+  refine ⟨r1, r2, shared_not_sep r1 r2, ?_⟩
+  intro hsrc
+  have ht : t < h.length := by
+    unfold field at hsrc
+    cases hq : h[t]? with
+    | none => simp [hq] at hsrc
+    | some q => exact (List.getElem?_eq_some_iff.mp hq).1
+  refine Reach.step r2 ?_
+  rw [succs_congr (low t ht)]
+  exact field_succs hsrc
+
 /-! ## exports -/
 
 /-- **export_disjoint (`to_xarray("ugrid")`, `encode_as("UGRID")`, repaired)**: the returned dataset
@@ -377,6 +454,30 @@ theorem asis_copy_not_independent :
     ¬ Frame hc.1 (runActs hc.1 hc.2 ((Mut.writeVar 0 [0, 0]).actsGrid)) demo.2 := by
   refine ⟨frameJ_changed (x := 11) (p := [kDs]) (by decide +kernel),
           frameJ_changed (x := 0) (p := [kDs, kVar 0, kData]) (by decide +kernel)⟩
+
+/-- a grid whose nearest-neighbour trees were built before it is copied -/
+def demoTrees : Heap × Nat :=
+  (runActs demo.1 demo.2 ((CacheOp.fill kBall [1]).acts ++ (CacheOp.fill kKd [2]).acts), demo.2)
+
+/-- the trees exist, refer back to the grid, and the hypotheses of `handover_copy_shares` are met -/
+example : (field demoTrees.1 demoTrees.2 kBall).isSome ∧
+    (follow demoTrees.1 demoTrees.2 [kBall, kSrc] = some demoTrees.2) ∧ wfB demoTrees.1 = true := by
+  decide +kernel
+/-- repaired copy of a grid with caches: separated, caches of the copy empty; switching the
+    original's tree and replacing its face centres leaves the copy untouched -/
+example :
+    let hc := copyGrid demoTrees.1 demoTrees.2
+    let ops : List GridOp := [.cache (.switch kBall [9]), .mut (.setVar 7 [5, 5] [3]), .cache (.fill kGdf [4])]
+    let h2 := runActs hc.1 demoTrees.2 (ops.flatMap GridOp.acts)
+    judge hc.1 demoTrees.2 hc.2 = .sep ∧ field hc.1 hc.2 kBall = none ∧
+    frameJ hc.1 h2 hc.2 = .ok ∧ frameJ hc.1 h2 demoTrees.2 ≠ .ok := by
+  decide +kernel
+/-- handing the trees over: shared, and switching the original's tree is seen through the copy -/
+theorem handover_copy_not_independent :
+    let hc := copyGridHandOver demoTrees.1 demoTrees.2 [kBall, kKd]
+    judge hc.1 demoTrees.2 hc.2 ≠ .sep ∧
+    ¬ Frame hc.1 (runActs hc.1 demoTrees.2 ((CacheOp.switch kBall [9]).acts)) hc.2 := by
+  refine ⟨by decide +kernel, frameJ_changed (x := 14) (p := [kBall]) (by decide +kernel)⟩
 
 /-- repaired export: separated, and caller edits do not reach the grid -/
 example :
